@@ -7,3 +7,14 @@ import NdnGen.C16
 #print axioms Ndn.C16.formatTime_length
 #print axioms Ndn.C16.formatTime_inj
 #print axioms Ndn.Gen.C16.schema_matches
+#print axioms Ndn.C16.ord_ymd_roundtrip
+#print axioms Ndn.C16.addSeconds_spec
+#print axioms Ndn.C16.addYears_spec
+#print axioms Ndn.C16.toUtc_spec
+#print axioms Ndn.C16.fmtInstant_inj
+#print axioms Ndn.C16.fmt_domain
+#print axioms Ndn.C16.derive_instants
+#print axioms Ndn.C16.validity_encodes_requested_instants
+#print axioms Ndn.C16.req_instants
+#print axioms Ndn.C16.self_instants
+#print axioms Ndn.C16.issued_validity
